@@ -4,7 +4,7 @@
    [cmac], [sha], [E]/[D], base64 are arbitrary functions, constrained only by the
    hypotheses written in each statement. *)
 From Coq Require Import List ZArith Bool Lia.
-From GZ Require Import C18.Model C18.Proofs C18.ProofsCrypt.
+From GZ Require Import C18.Model C18.Proofs C18.ProofsCrypt C18.Server C18.ProofsServer.
 Import ListNotations.
 Open Scope Z_scope.
 
@@ -126,6 +126,32 @@ Proof.
   subst a a'. unfold ex_mac. intros M. repeat split; lia.
 Qed.
 
+(* The error handed to the unauthorized callback (ParseToken's error: with two secrets, the one of
+   the SECOND attempt) is "no error" exactly for the accepted credentials, from every counter state. *)
+Theorem no_error_iff_accepted : forall mac h c now cr,
+  parse_err mac h c now cr = 0 <-> Accepts mac c now cr.
+Proof. exact parse_err_zero. Qed.
+Print Assumptions no_error_iff_accepted.
+
+(* token.TokenParser used directly, ONE parser, every call with its own (secret, prevSecret),
+   any sequence of calls, with or without the history reset: a token comes back exactly for the
+   calls whose credential is valid under the secrets of that very call — nothing learnt in an
+   earlier call (hit counters, a token seen before, other secrets) can make a later one pass. *)
+Theorem parser_gate_over_call_sequences : forall mac rs calls h,
+  Forall2 (fun cl e => e = 0 <-> Accepts mac (fst (fst cl)) (snd (fst cl)) (snd cl)) calls (run_parser mac rs h calls).
+Proof. exact run_parser_ok. Qed.
+Print Assumptions parser_gate_over_call_sequences.
+
+(* the hit counters do show, but only in WHICH error a rejected request reports: a token signed
+   with the current secret and expired gives "signature invalid" (4, from the attempt with the
+   previous secret) while the current secret is tried first, and "expired" (16) otherwise *)
+Example ex_error_shows_order :
+  let t := mkToken HS256 7 (Some (ex_mac HS256 1 7)) [(2, VNum 500)] in
+  parse_err ex_mac [(1, 5); (2, 3)] ex_cfg 1000 (CToken t) = 4 /\
+  parse_err ex_mac [(1, 3); (2, 3)] ex_cfg 1000 (CToken t) = 16 /\
+  jran (snd (authorize ex_mac [(1, 5); (2, 3)] ex_cfg 1000 (CToken t))) = false.
+Proof. vm_compute. repeat split; reflexivity. Qed.
+
 (* ========================= content security ============================== *)
 
 (* Behind strict content security, for DELETE/GET/POST/PUT: the handler ran only if every
@@ -237,6 +263,83 @@ Proof.
   exists 1, 1, 1, (ex_cmac 3 (1, 3, 1, 1, 9)), ex_secret, 3, 0, 500.
   repeat split; try reflexivity; lia.
 Qed.
+
+(* ================= several route groups on one server ==================== *)
+
+(* THE GATE IS PER GROUP.  A server is a list of groups (AddRoutes calls), each with its own
+   JWT secrets and its own signature configuration (strictness, tolerance, private keys by
+   fingerprint).  For EVERY such list, every state of the per-route hit counters and every
+   request: if some handler ran, then it is the handler of the requested route, the route was
+   registered by group g (the first that lists it), and the request's credentials are valid
+   for g's OWN configuration:
+     - g has the JWT option  =>  the token verifies under g's secret or previous secret (and its
+       time claims hold now);
+     - g has a strict signature and the method is one of DELETE/GET/POST/PUT  =>  g has keys, all
+       loadable, and the request is signed (fingerprint found in g's OWN key list, secret decrypts
+       under THAT key, timestamp within g's tolerance, MAC over timestamp/method/path/query/body).
+   What other groups are configured with does not enter. *)
+Theorem handler_runs_only_for_own_group_credentials :
+  forall ulfix key_ok mac rsa_dec cmac sha aes_ok E D b64enc b64dec limit gs st q st' o,
+  serve ulfix mac rsa_dec cmac sha aes_ok E D b64enc b64dec limit (fst (bind key_ok gs [])) st q = (st', o) ->
+  o_ran (s_out o) = true ->
+  exists g, owner (q_route q) gs = Some g /\ s_route o = Some (q_route q) /\
+            ValidFor key_ok mac rsa_dec cmac sha g q.
+Proof. exact serve_gate. Qed.
+Print Assumptions handler_runs_only_for_own_group_credentials.
+
+(* ... for every sequence of requests on one long-lived server *)
+Theorem server_gate_over_request_sequences :
+  forall ulfix key_ok mac rsa_dec cmac sha aes_ok E D b64enc b64dec limit gs qs st,
+  Forall2 (GateOk key_ok mac rsa_dec cmac sha gs) qs
+          (serve_all ulfix mac rsa_dec cmac sha aes_ok E D b64enc b64dec limit (fst (bind key_ok gs [])) st qs).
+Proof. exact serve_all_gate. Qed.
+Print Assumptions server_gate_over_request_sequences.
+
+Theorem other_groups_token_gets_401 :
+  forall ulfix key_ok mac rsa_dec cmac sha aes_ok E D b64enc b64dec limit gs st q st' o g jc,
+  snd (bind key_ok gs []) = true ->
+  owner (q_route q) gs = Some g -> g_jwt g = Some jc ->
+  ~ Accepts mac jc (q_jnow q) (q_cred q) ->
+  serve ulfix mac rsa_dec cmac sha aes_ok E D b64enc b64dec limit (fst (bind key_ok gs [])) st q = (st', o) ->
+  s_out o = mkHout false 401 [] [] false /\ s_route o = None.
+Proof. exact serve_jwt_rejects. Qed.
+Print Assumptions other_groups_token_gets_401.
+
+(* what a request to a route gets depends only on the options of the group that registered it *)
+Theorem groups_are_isolated :
+  forall ulfix key_ok mac rsa_dec cmac sha aes_ok E D b64enc b64dec limit gs1 gs2 st q g1 g2,
+  snd (bind key_ok gs1 []) = true -> snd (bind key_ok gs2 []) = true ->
+  owner (q_route q) gs1 = Some g1 -> owner (q_route q) gs2 = Some g2 ->
+  g_jwt g1 = g_jwt g2 -> g_sig g1 = g_sig g2 ->
+  serve ulfix mac rsa_dec cmac sha aes_ok E D b64enc b64dec limit (fst (bind key_ok gs1 [])) st q =
+  serve ulfix mac rsa_dec cmac sha aes_ok E D b64enc b64dec limit (fst (bind key_ok gs2 [])) st q.
+Proof. exact group_isolation. Qed.
+Print Assumptions groups_are_isolated.
+
+(* non-vacuity: two strict signature groups, A with key file 1 under fingerprint 1, B with key
+   file 2 under fingerprint 2, and a JWT group.  The same signed request (secret encrypted to
+   key 1) runs A's handler; with B's credentials (fingerprint 2, secret to key 2) A answers 403,
+   although B itself accepts them; B's token is refused by the JWT group of another secret. *)
+Definition ex2_rsa (kid sc : Z) : option cs_secret :=
+  if ((kid =? 1) && (sc =? 1)) || ((kid =? 2) && (sc =? 2)) then Some ex_secret else None.
+Definition ex2_groups :=
+  [ mkGroup None (Some (mkSig true [(1, 1)] 10)) [(3, 1)];
+    mkGroup None (Some (mkSig true [(2, 2)] 10)) [(3, 2)];
+    mkGroup (Some (mkJcfg 1 None)) None [(3, 3)] ].
+Definition ex2_req (path fp sc : Z) :=
+  mkSreq 1000 (CToken (mkToken HS256 7 (Some (ex_mac HS256 2 7)) []))
+         505 (mkReq 3 path 1 None (mkHdr (Some fp) (Some sc) (Some (ex_cmac 3 (1, 3, path, 1, 9)))) 0 []) [].
+Definition ex2_serve q :=
+  snd (serve false ex_mac ex2_rsa ex_cmac (fun _ => 9) (fun _ => true) (fun _ b => b) (fun _ b => b)
+             (fun b => b) (fun b => Some b) 1024 (fst (bind (fun _ => true) ex2_groups [])) [] q).
+
+Example ex_groups_keep_their_own_keys :
+  snd (bind (fun _ => true) ex2_groups []) = true /\
+  s_route (ex2_serve (ex2_req 1 1 1)) = Some (3, 1) /\                 (* A's key on A's route *)
+  o_status (s_out (ex2_serve (ex2_req 1 2 2))) = 403 /\               (* B's key on A's route *)
+  s_route (ex2_serve (ex2_req 2 2 2)) = Some (3, 2) /\                 (* B's key on B's route *)
+  o_status (s_out (ex2_serve (ex2_req 3 1 1))) = 401.                  (* a token of secret 2 on the group of secret 1 *)
+Proof. vm_compute. repeat split; reflexivity. Qed.
 
 (* ====================== padding, ECB, cryption handler =================== *)
 
